@@ -132,6 +132,42 @@ fn solve(r: &Run, f: &F, so: &mut Rec) -> Result<IntegrationResult, ivp::error::
     }
 }
 
+/// Right-hand side returning a given list of vectors, one per call (the last one repeats): replays a solver model of
+/// one trial step (stage values) on the real method.
+struct Given { vals: Vec<Vec<f64>>, calls: RefCell<Vec<(f64, Vec<f64>)>> }
+impl IVP for Given {
+    fn ode(&self, x: f64, y: &[f64], d: &mut [f64]) {
+        let k = { let mut c = self.calls.borrow_mut(); c.push((x, y.to_vec())); c.len() - 1 };
+        let v = &self.vals[k.min(self.vals.len() - 1)];
+        for i in 0..d.len() { d[i] = v[i]; }
+    }
+}
+struct RecN { cbs: Vec<(f64, f64, Vec<f64>)>, calls_at: Vec<usize>, stop_at: usize }
+impl SolOut for RecN {
+    fn solout(&mut self, xold: f64, x: &mut f64, y: &mut [f64], _it: Option<&StepInterpolant<'_>>) -> ControlFlag {
+        self.cbs.push((xold, *x, y.to_vec()));
+        if self.cbs.len() >= self.stop_at { ControlFlag::Interrupt } else { ControlFlag::Continue }
+    }
+}
+
+/// M y' = A y with a non-symmetric M (use_mass) against y' = M^-1 A y (identity mass): Radau must agree within tolerance.
+struct MassLin { use_mass: bool }
+const ML_M: [[f64; 2]; 2] = [[2.0, 1.0], [0.0, 1.0]];
+const ML_A: [[f64; 2]; 2] = [[-1.0, 0.5], [0.25, -2.0]];
+impl IVP for MassLin {
+    fn ode(&self, _x: f64, y: &[f64], d: &mut [f64]) {
+        let f = [ML_A[0][0] * y[0] + ML_A[0][1] * y[1], ML_A[1][0] * y[0] + ML_A[1][1] * y[1]];
+        if self.use_mass { d[0] = f[0]; d[1] = f[1]; } else {
+            // M^-1 for [[2,1],[0,1]] = [[1/2,-1/2],[0,1]]
+            d[0] = 0.5 * f[0] - 0.5 * f[1];
+            d[1] = f[1];
+        }
+    }
+    fn mass(&self, m: &mut Matrix) {
+        if self.use_mass { for r in 0..2 { for c in 0..2 { m[(r, c)] = ML_M[r][c]; } } } else { for r in 0..2 { m[(r, r)] = 1.0; } }
+    }
+}
+
 /// Event functions for the handler replay: concrete end-point values per callback, exact zero at
 /// every interior (Brent) probe.
 struct Ev { configs: Vec<(Direction, Option<usize>)>, vals: Vec<Vec<f64>>, call: Cell<usize>, probes: Cell<usize> }
@@ -246,6 +282,60 @@ fn main() {
                 Err(e) => println!("{{\"ok\":false,\"error\":\"{:?}\"}}", e),
             }
         }
+        // probe accept METHOD x0 h Y0 RTOL ATOL K   with Y0/RTOL/ATOL "a;b" and K "k1a;k1b,k2a;k2b,..": first trial step with the given stage values
+        "accept" => {
+            let vecp = |s: &String| -> Vec<f64> { s.split(';').map(|v| v.parse().unwrap()).collect() };
+            let method = a[2].clone();
+            let (x0, h): (f64, f64) = (a[3].parse().unwrap(), a[4].parse().unwrap());
+            let y0 = vecp(&a[5]);
+            let (rt, at) = (vecp(&a[6]), vecp(&a[7]));
+            let ks: Vec<Vec<f64>> = a[8].split(',').map(|v| vecp(&v.to_string())).collect();
+            let f = Given { vals: ks, calls: RefCell::new(vec![]) };
+            let mut so = RecN { cbs: vec![], calls_at: vec![], stop_at: 2 };
+            let xend = x0 + 4.0 * h;
+            let (rtol, atol): (ivp::methods::Tolerance, ivp::methods::Tolerance) = if rt.len() == 1 { (rt[0].into(), at[0].into()) } else { (rt.clone().into(), at.clone().into()) };
+            let r = match method.as_str() {
+                "RK23" => RK23::builder().first_step(h).build().solve(&f, x0, &y0, xend, rtol, atol, Some(&mut so)),
+                "DOPRI5" => DOPRI5::builder().first_step(h).build().solve(&f, x0, &y0, xend, rtol, atol, Some(&mut so)),
+                _ => DOP853::builder().first_step(h).build().solve(&f, x0, &y0, xend, rtol, atol, Some(&mut so)),
+            };
+            let calls = f.calls.borrow();
+            let cb: Vec<String> = so.cbs.iter().map(|c| format!("{{\"xold\":{},\"x\":{},\"y\":{}}}", js(c.0), js(c.1), jl(&c.2))).collect();
+            let ts: Vec<f64> = calls.iter().map(|c| c.0).collect();
+            println!("{{\"ok\":{},\"callbacks\":[{}],\"t\":{},\"ncalls\":{}}}", r.is_ok(), cb.join(","), jl(&ts), calls.len());
+        }
+        // probe lookup X0 H0,H1,.. T0,T1,..  : which stored segment the strict (Solution::sol) and the extrapolating (Python OdeSolution.__call__)
+        //   lookups evaluate; segment k is the constant k (RK4 Hermite data [k,0,0,k]); segments are contiguous: xold_{k+1} = fl(xold_k + h_k)
+        "lookup" => {
+            let x0: f64 = a[2].parse().unwrap();
+            let hs: Vec<f64> = a[3].split(',').map(|v| v.parse().unwrap()).collect();
+            let ts: Vec<f64> = a[4].split(',').map(|v| v.parse().unwrap()).collect();
+            let mut segs = vec![];
+            let mut x = x0;
+            let mut xs = vec![x0];
+            for (k, h) in hs.iter().enumerate() {
+                let v = k as f64;
+                segs.push((vec![v, 0.0, 0.0, v], x, *h));
+                x = x + *h;
+                xs.push(x);
+            }
+            let co = ivp::verif_hooks::continuous_from_segments(Method::RK4, 1, segs);
+            let idx = |o: Option<Vec<f64>>| -> String { match o { Some(v) => format!("{}", v[0].round() as i64), None => "null".to_string() } };
+            let rows: Vec<String> = ts.iter().map(|t| format!("[{},{}]", idx(co.evaluate(*t)), idx(co.evaluate_extrapolate(*t)))).collect();
+            println!("{{\"xs\":{},\"results\":[{}]}}", jl(&xs), rows.join(","));
+        }
+        // probe radaumass : Radau on M y' = A y (non-symmetric M, Full mass storage) vs Radau on y' = M^-1 A y; final states
+        "radaumass" => {
+            let mut outs = vec![];
+            for use_mass in [true, false] {
+                let f = MassLin { use_mass };
+                let mut so = RecN { cbs: vec![], calls_at: vec![], stop_at: usize::MAX };
+                let r = RADAU::builder().mass_storage(MatrixStorage::Full).build().solve(&f, 0.0, &[1.0, -0.5], 1.0, 1e-9.into(), 1e-12.into(), Some(&mut so));
+                let last = so.cbs.last().map(|c| c.2.clone()).unwrap_or_default();
+                outs.push(format!("{{\"use_mass\":{},\"ok\":{},\"y\":{},\"steps\":{}}}", use_mass, r.is_ok(), jl(&last), so.cbs.len()));
+            }
+            println!("{{\"runs\":[{}]}}", outs.join(","));
+        }
         // probe ondemand METHOD H : 4 fixed steps on the smooth problem, once with dense output on and once
         // with dense_output(false) + an XOut request that becomes due in step 3
         "ondemand" => {
@@ -339,6 +429,26 @@ fn main() {
                 out.push(format!("\"{}\":{{\"status\":\"{:?}\",\"t\":{},\"ends_at_xend\":{}}}", nm, s.status, jl(&s.t), (last - 1.0).abs() < 1e-9));
             }
             println!("{{{}}}", out.join(","));
+        }
+        // probe optindep : solve_ivp (RK4, 250001 fixed steps; RK23 with a tight max_step) with and without dense_output / t_eval, default max_steps:
+        //   status, number of accepted steps and final state must not depend on the output options
+        "optindep" => {
+            struct Dec; impl IVP for Dec { fn ode(&self, _x: f64, y: &[f64], d: &mut [f64]) { d[0] = -y[0]; } }
+            let mut out = vec![];
+            for (nm, me) in [("RK4", Method::RK4), ("RK23", Method::RK23)] {
+                for (dense, te) in [(false, false), (true, false), (false, true), (true, true)] {
+                    let b = Options::builder().method(me).dense_output(dense);
+                    let o = match (nm, te) {
+                        ("RK4", false) => b.first_step(1.0 / 250001.0).build(),
+                        ("RK4", true) => b.first_step(1.0 / 250001.0).t_eval(vec![0.5, 1.0]).build(),
+                        (_, false) => b.max_step(1.0 / 250001.0).build(),
+                        (_, true) => b.max_step(1.0 / 250001.0).t_eval(vec![0.5, 1.0]).build(),
+                    };
+                    let s = solve_ivp(&Dec, 0.0, 1.0, &[1.0], o).unwrap();
+                    out.push(format!("{{\"method\":\"{}\",\"dense\":{},\"t_eval\":{},\"status\":\"{:?}\",\"naccpt\":{},\"last_t\":{},\"last_y\":{}}}", nm, dense, te, s.status, s.naccpt, js(s.t.last().copied().unwrap_or(f64::NAN)), js(s.y.last().map(|v| v[0]).unwrap_or(f64::NAN))));
+                }
+            }
+            println!("[{}]", out.join(","));
         }
         _ => { eprintln!("usage: probe tableau|fsal|ondemand|script|stiff|handler|radautol|firststep ..."); std::process::exit(2); }
     }
